@@ -76,7 +76,12 @@ pub fn run_case(tier: &str, seed: u64, idx: u64) -> CaseOut {
         }
         let phase = if k == 0 { "before-anything".to_string() } else { exec.phase_of(k - 1) };
         let (acked, with) = exec.expected_at(k as u64);
-        let cfg = if k == 0 { params.cfg } else { exec.cfg_at(k as u64 - 1) };
+        let mut cfg = if k == 0 { params.cfg } else { exec.cfg_at(k as u64 - 1) };
+        // one recovery in four runs with the other log-reuse setting than the instance that crashed
+        if rng.chance(0.25) {
+            cfg.reuse = !cfg.reuse;
+            out.add("recoveries_with_the_other_reuse_setting", 1);
+        }
         let image = replayer.image();
         let ctx = json!({"execution": exec.description, "crash_after_mutating_call": k, "of": n,
             "last_call_before_crash": if k > 0 { exec.journal[k - 1].op.describe() } else { "-".to_string() },
